@@ -130,7 +130,11 @@ def _match_final(ctx, name, got, refs, what=""):
 def _cases_basic(allow_int=True, max_n=5000):
     @st.composite
     def cases(draw):
-        spec = draw(gen.record_specs(min_n=2, max_n=max_n, allow_int=allow_int))
+        if max_n >= 5000 and draw(st.integers(0, 39)) == 0:
+            # very long records (tens of minutes at 100-200 Hz)
+            spec = draw(gen.record_specs(min_n=60000, max_n=150000, kinds=["noise", "quake", "walk", "sines"], allow_zero_runs=False))
+        else:
+            spec = draw(gen.record_specs(min_n=2, max_n=max_n, allow_int=allow_int))
         return {"rec": spec, "dt": draw(gen.dts(1e-4, 2.0))}
     return cases()
 
